@@ -100,7 +100,7 @@ func (s *Style) expr(e Expr) string {
 	return Text(toks, func(i int) string { return s.opt() })
 }
 
-var commentWords = []string{"bomb", "scan", "loop", "ptr", "step", "gate", "clear", "imp", "launch", "decoy", "x1", "todo 2+2", "a,b", "(see below)"}
+var commentWords = []string{"\ufffd replaced", "\u00e9t\u00e9 \u6f22\u5b57 \U0001f600", "bomb", "scan", "loop", "ptr", "step", "gate", "clear", "imp", "launch", "decoy", "x1", "todo 2+2", "a,b", "(see below)"}
 
 func (s *Style) comment() string {
 	if s.LongCommentPct > 0 && s.R.Intn(100) < s.LongCommentPct {
